@@ -157,8 +157,8 @@ Print Assumptions list_property_consumed.
 (* binary files (both byte orders), face element made of any list properties (none called texcoord), the index
    property at position ip with int or uint items, every face listing three or four vertices: the index buffer of
    the mesh is the concatenation, in face order, of the triangle itself or of the fan (0,1,2),(0,2,3).
-   _partial: faces with a texcoord list (per-corner UVs, unweld) are covered by the correspondence check only.
-   FULL STATEMENT: the same with a texcoord property present (corner order of the unwelded mesh). *)
+   _partial: this theorem is the no-texcoord case; [quad_fan_texcoord_bin] adds binary faces with a texcoord list;
+   ascii faces with a texcoord list and the unweld step of MeshReader.Read are covered by the correspondence only. *)
 Theorem quad_fan_partial : forall e rs ip ct lt (fs : list (list (list N))) rest st,
   nth_error rs ip = Some (ct, lt) -> index_ty_ok lt = true ->
   Forall (face_ok rs ip) fs ->
@@ -166,6 +166,20 @@ Theorem quad_fan_partial : forall e rs ip ct lt (fs : list (list (list N))) rest
   Ok (flat_map (fun f => fan_tris (map signed32 (nth ip f []))) fs, []).
 Proof. exact quad_fan_bin_proof. Qed.
 Print Assumptions quad_fan_partial.
+
+(* binary files whose face element also has a texcoord list (float or double items, anywhere among the list
+   properties): the reader returns the fan of the corner indices AND the fan of the per-corner texture coordinates
+   (quad: corners 0,1,2 and 0,2,3), from which MeshReader.Read builds the unwelded mesh *)
+Theorem quad_fan_texcoord_bin : forall e rs ip tk ct lt ctt ltt (fs : list (list (list N))) rest st,
+  nth_error rs ip = Some (ct, lt) -> index_ty_ok lt = true ->
+  nth_error rs tk = Some (ctt, ltt) -> (ltt = Float \/ ltt = Double) ->
+  List.length (fs_ibuf st) = 4%nat -> List.length (fs_tbuf st) = 8%nat ->
+  Forall (tex_face_ok rs ip tk) fs ->
+  faces_bin e rs ip (Some tk) (flat_map (enc_face_bin e rs) fs ++ rest) (List.length fs) st =
+  Ok (flat_map (fun f => fan_tris (map signed32 (nth ip f []))) fs,
+      flat_map (fun f => fan (pairs (map (tex_value ltt) (nth tk f []))) []) fs).
+Proof. exact quad_fan_tex_bin_proof. Qed.
+Print Assumptions quad_fan_texcoord_bin.
 
 (* the same for ascii files, one face per line (int items read signed, uint items unsigned) *)
 Theorem quad_fan_ascii_partial : forall rs ip ct lt (fs : list (list (list N))) st,
